@@ -90,6 +90,10 @@ def main(run):
     for n in (2, 3, 4, 5, 6):
         run.bounded_run(f"exact.table[n={n}]", NS.sc_normalize_icg, {"n": n, "region": "exact"},
                         exact_inputs(run, n, 10 if quick else 80), tol=1e-9, bound="seeded integer/dyadic superadditive games incl. additive ones")
+    # beyond one byte of coalition ids (vectorised popcount / unpackbits slips show only for n >= 9)
+    for n in ((9,) if quick else (9, 10)):
+        run.bounded_run(f"exact.table[n={n}]", NS.sc_normalize_icg, {"n": n, "region": "exact"},
+                        exact_inputs(run, n, 2), tol=1e-9, bound="2 seeded integer/dyadic superadditive games beyond 8 players")
     rows = []
     for n in ((3, 4) if quick else (3, 4, 5, 6)):
         seeds = range(run.seed, run.seed + (4 if quick else 25))
